@@ -574,6 +574,9 @@ func (obj *SparseIntVector) Import(filename string) error {
       values = append(values, int(v))
     }
   }
+  if err := checkSparseIndices(indices, n); err != nil {
+    return err
+  }
   *obj = *NewSparseIntVector(indices, values, n)
   return nil
 }
@@ -605,6 +608,9 @@ func (obj *SparseIntVector) UnmarshalJSON(data []byte) error {
   }
   if len(r.Index) != len(r.Value) {
     return fmt.Errorf("invalid sparse vector")
+  }
+  if err := checkSparseIndices(r.Index, r.Length); err != nil {
+    return err
   }
   *obj = *NewSparseIntVector(r.Index, r.Value, r.Length)
   return nil
